@@ -12,7 +12,7 @@ import time
 
 from .core import Ctx
 
-KINDS = ("coroVal", "coroRaise", "plainNone", "plainVal", "plainRaise", "notCallable")
+KINDS = ("coroVal", "coroRaise", "plainNone", "plainVal", "plainRaise", "notCallable", "plainZero", "plainFalse", "plainEmpty")
 
 
 class Wrapped:
@@ -61,6 +61,26 @@ class Wrapped:
         self._rec(i)
         raise ValueError(i)
 
+    # values all the same: a plain method called through the proxy "must return nothing"
+    def plainZero(self, i):
+        self._rec(i)
+        return 0
+
+    def plainFalse(self, i):
+        self._rec(i)
+        return False
+
+    def plainEmpty(self, i):
+        self._rec(i)
+        return b""
+
+    def report(self, loop, context):
+        """exception handler of the owner's loop: what the loop reports for a callback it ran (per-thread log, owner side)"""
+        exc = context.get("exception")
+        if context.get("handle") is None or exc is None:
+            return                      # not a callback's exception (e.g. a task destroyed at shutdown)
+        self.log.append({"a": "report", "what": "typeerror" if isinstance(exc, TypeError) else "exc"})
+
 
 def scenario(calls, close_before=False, via_eventloopthread=False, burst=1, hold=False, stopping=False, notstarted=False):
     """calls: list of (kind, src) or (kind, src, look).  look = the loop on which the proxy attribute is looked up
@@ -76,7 +96,7 @@ def scenario(calls, close_before=False, via_eventloopthread=False, burst=1, hold
     def owner_main():
         loop = asyncio.new_event_loop()
         asyncio.set_event_loop(loop)
-        loop.set_exception_handler(lambda l, ctx: None)     # plain calls that raise are logged by the loop, not relayed
+        loop.set_exception_handler(obj.report)     # plain calls that raise (or hand back a value) are reported by the loop, not relayed
         obj.owner_ident = threading.get_ident()
         holder["loop"] = loop
         if notstarted:
@@ -99,7 +119,7 @@ def scenario(calls, close_before=False, via_eventloopthread=False, burst=1, hold
         async def _ident():
             return threading.get_ident()
         obj.owner_ident = asyncio.run_coroutine_threadsafe(_ident(), owner_loop).result(30)
-        owner_loop.call_soon_threadsafe(owner_loop.set_exception_handler, lambda l, ctx: None)
+        owner_loop.call_soon_threadsafe(owner_loop.set_exception_handler, obj.report)
 
         def stop_owner():
             elt.force_stop()
@@ -261,7 +281,7 @@ def length_of(t):
 
 def run(ctx: Ctx):
     ctx.model_check("ThreadProxyMC", "MC_ThreadProxy", constants={"NCalls": "3"},
-                    invariants=("ExecOnOwner", "NeverOnCaller", "RelayedExactly", "PlainReturnsNothing", "DroppedNeverRuns", "NotCallableRefused"),
+                    invariants=("ExecOnOwner", "NeverOnCaller", "RelayedExactly", "PlainReturnsNothing", "ValueReported", "DroppedNeverRuns", "NotCallableRefused"),
                     required_actions=("Invoke", "OwnerStep", "DirectCoroDone", "Close"))
     import logging
     scen = []
@@ -284,7 +304,7 @@ def run(ctx: Ctx):
     traces, metas = [], []
     # bursts issued while the owner's loop is busy (all calls of the burst queued before any runs), failing kinds in every position
     held = []
-    for bad in ("plainVal", "plainRaise", "coroRaise"):
+    for bad in ("plainVal", "plainRaise", "coroRaise", "plainZero", "plainFalse", "plainEmpty"):
         for pos in range(4):
             calls = [("plainNone", "other")] * 4
             calls[pos] = (bad, "other")
